@@ -127,12 +127,12 @@ def run(ctx):
             vals = [v for v in vals if v < 4] or [0, 1]     # enums: stay inside every enumeration's value range
         for v in vals:
             lines = ['new ' + cls]
-            others = [o for o in by_class[cls] if o[1] != fld and o[2] in (1, 3, 4, 6)]
-            for o in rng.sample(others, min(len(others), 4)):
-                ov = rng.randrange(1 << min(o[3], 62)) if o[2] in (1, 3) else rng.randrange(1 << 62)
+            others = [o for o in by_class[cls] if o[1] != fld and o[2] in (1, 2, 3, 4, 6)]
+            for o in rng.sample(others, min(len(others), 5)):
+                ov = rng.randrange(1 << min(o[3], 62)) if o[2] in (1, 3) else (rng.randrange(4) if o[2] == 2 else rng.randrange(1 << 62))
                 lines.append('set 0 %s %d' % (o[1], ov))
             comp = (~v) & ((1 << min(bits, 64)) - 1) if kind in (1, 3) else ((v + 1) % 4 if kind == 2 else v ^ 0x5a5a5a5a5a5a5a5a)
-            lines += ['set 0 %s %d' % (fld, comp), 'ser', 'view', 'set 0 %s %d' % (fld, v), 'ser']
+            lines += ['ser', 'view', 'set 0 %s %d' % (fld, comp), 'set 0 %s %d' % (fld, v), 'ser']
             sid = 's%d' % n
             n += 1
             scripts.append((sid, lines))
@@ -169,8 +169,9 @@ def run(ctx):
             i_view = lines.index('view')
             ser1 = o[i_view - 1]
             before = parse_view(o[i_view])
-            after = parse_view(o[i_view + 1])
-            ser2 = o[i_view + 2]
+            mid = parse_view(o[i_view + 1])
+            after = parse_view(o[i_view + 2])
+            ser2 = o[i_view + 3]
         except Exception:
             # a setter may legitimately throw for enum-typed fields; anything else is reported
             if any(l.startswith('E') for l in o) and kind == 2:
@@ -194,8 +195,9 @@ def run(ctx):
                 viol.append((True, '%s.%s: set %d, getter returns %s' % (cls, fld, v, got), lines))
         elif got != exp and kind not in (1, 2):
             viol.append((True, '%s.%s: set %s, getter returns %s' % (cls, fld, exp, got), lines))
+        m0 = mid[0][1] if mid else a0
         for g, val in b0.items():
-            if g != fld and a0.get(g) != val:
+            if g != fld and (a0.get(g) != val or m0.get(g) != val):
                 changes.setdefault((cls, fld), set()).add(g)
         # wire check against the independent table
         if cls in SPEC and fld in SPEC[cls][0] and ser1.startswith('S ') and ser2.startswith('S ') and got == exp and not (cls == 'IP' and fld == 'src_addr' and wire_value(kind, bits, v) == 0):
